@@ -18,6 +18,7 @@ VARIABLE c
 \*               through the absolute path ::typeshare::typeshare, with blanks inside the brackets)
 \* bad_item_arrives_*  the second item cannot be generated (a u64 field); its file reaches the collector first / between / after the two
 \*               good files of the same crate: the run reports it (Trace_C03!Reported), it is not silently omitted
+\* second_run    the same command twice into the same location: the definitions the second run leaves are one per annotated item again
 \* no_src        a crate directory without a src directory (single-file mode only: folder mode names files after the directory above src)
 Init == c \in { r \in [place : Places, mode : Modes, lang : Langs] : r.place = "no_src" => r.mode = "single" }
 Next == UNCHANGED c
